@@ -227,6 +227,13 @@ type mapObj struct {
 	KeyS    Sort
 	Count   Term
 	ValT    types.Type
+	KeyT    types.Type
+	Abstract bool // values are not tracked (non-scalar element type): look-ups yield arbitrary values
+}
+
+type rangeIter struct {
+	M MapVal
+	T *types.Map
 }
 
 func (vc *VC) flattenSorts(T types.Type) ([]Sort, bool) {
@@ -337,7 +344,7 @@ func (vc *VC) makeMap(st *State, T types.Type, name string) Val {
 		bits += s.N
 	}
 	keyS := BV(bits)
-	mo := mapObj{KeyS: keyS, Count: vc.idx(0), ValT: mt.Elem()}
+	mo := mapObj{KeyS: keyS, Count: vc.idx(0), ValT: mt.Elem(), KeyT: mt.Key()}
 	mo.Present = ConstArray(ArrSort(keyS, SBool), TFalse())
 	if vs, ok := vc.flattenSorts(mt.Elem()); ok {
 		zs := vc.flattenVal(vc.zero(mt.Elem()))
@@ -345,9 +352,9 @@ func (vc *VC) makeMap(st *State, T types.Type, name string) Val {
 			mo.Vals = append(mo.Vals, ConstArray(ArrSort(keyS, s), zs[i]))
 		}
 	} else {
-		// non-scalar values (slices, maps): kept per concrete key is impossible; model as
-		// executor-level association list on symbolic keys
+		// non-scalar values (slices, maps, strings of unknown content): not tracked
 		mo.Vals = nil
+		mo.Abstract = true
 	}
 	c := vc.newCell("map."+name, "heap", nil)
 	st.mem[c] = mo
@@ -360,17 +367,16 @@ func (vc *VC) mapUpdate(fr *Frame, st *State, x *ssa.MapUpdate) {
 		panic(execError{"assignment to nil map"})
 	}
 	mo := st.mem[mv.Cell].(mapObj)
-	if mo.Vals == nil {
-		panic(execError{"map with non-scalar values is outside the supported subset"})
-	}
 	k := vc.keyTerm(vc.val(fr, st, x.Key))
-	vs := vc.flattenVal(vc.val(fr, st, x.Value))
 	n := mo
-	n.Vals = make([]Term, len(mo.Vals))
 	was := Select(mo.Present, k)
 	n.Present = Store(mo.Present, k, TTrue())
-	for i := range vs {
-		n.Vals[i] = Store(mo.Vals[i], k, vs[i])
+	if !mo.Abstract {
+		vs := vc.flattenVal(vc.val(fr, st, x.Value))
+		n.Vals = make([]Term, len(mo.Vals))
+		for i := range vs {
+			n.Vals[i] = Store(mo.Vals[i], k, vs[i])
+		}
 	}
 	n.Count = Ite(was, mo.Count, vc.iAdd(mo.Count, vc.idx(1)))
 	st.mem[mv.Cell] = n
@@ -399,10 +405,17 @@ func (vc *VC) lookup(fr *Frame, st *State, x *ssa.Lookup) {
 		return
 	}
 	mo := st.mem[mv.Cell].(mapObj)
-	if mo.Vals == nil {
-		panic(execError{"map with non-scalar values is outside the supported subset"})
-	}
 	k := vc.keyTerm(vc.val(fr, st, x.Index))
+	if mo.Abstract {
+		pres := Select(mo.Present, k)
+		v := vc.abstractElem(st, mt.Elem(), x.Name())
+		if x.CommaOk {
+			fr.env[x] = TupleVal{v, pres}
+		} else {
+			fr.env[x] = v
+		}
+		return
+	}
 	var ts []Term
 	for _, a := range mo.Vals {
 		ts = append(ts, Select(a, k))
@@ -418,10 +431,51 @@ func (vc *VC) lookup(fr *Frame, st *State, x *ssa.Lookup) {
 	}
 }
 
+// abstractElem: an arbitrary value of a map's element type (the element is not tracked).
+func (vc *VC) abstractElem(st *State, T types.Type, name string) Val {
+	if mt, ok := T.Underlying().(*types.Map); ok {
+		return vc.makeMap(st, mt, name)
+	}
+	return vc.fresh(T, name+".elem", st)
+}
+
+// Range over a map (A-STD: the iteration visits keys of the map, in no particular order, and
+// terminates): Next yields ok nondeterministically (false when the map is nil or empty), an
+// arbitrary present key and its value.
 func (vc *VC) rangeStart(fr *Frame, st *State, x *ssa.Range) {
-	panic(execError{"range over map/string is outside the supported subset"})
+	mt, ok := x.X.Type().Underlying().(*types.Map)
+	if !ok {
+		panic(execError{"range over a string is outside the supported subset"})
+	}
+	vc.assume("A-STD")
+	fr.env[x] = rangeIter{M: vc.val(fr, st, x.X).(MapVal), T: mt}
 }
 
 func (vc *VC) rangeNext(fr *Frame, st *State, x *ssa.Next) {
-	panic(execError{"range over map/string is outside the supported subset"})
+	it, ok := vc.val(fr, st, x.Iter).(rangeIter)
+	if !ok {
+		panic(execError{"next on a non-map iterator"})
+	}
+	if it.M.Cell == nil {
+		fr.env[x] = TupleVal{TFalse(), vc.zero(it.T.Key()), vc.zero(it.T.Elem())}
+		return
+	}
+	mo := st.mem[it.M.Cell].(mapObj)
+	okT := vc.freshTerm("rangeok", SBool)
+	st.Fact(Implies(Eq(mo.Count, vc.idx(0)), Not(okT)))
+	key := vc.fresh(it.T.Key(), x.Name()+".key", st)
+	kt := vc.keyTerm(key)
+	st.Fact(Implies(okT, Select(mo.Present, kt)))
+	var v Val
+	if mo.Abstract {
+		v = vc.abstractElem(st, it.T.Elem(), x.Name())
+	} else {
+		var ts []Term
+		for _, a := range mo.Vals {
+			ts = append(ts, Select(a, kt))
+		}
+		k := 0
+		v = vc.unflatten(it.T.Elem(), ts, &k)
+	}
+	fr.env[x] = TupleVal{okT, key, v}
 }
